@@ -63,6 +63,8 @@ pub enum Op {
     Lookup(u8),
     /// advance time by n seconds, housekeeping every second
     Tick(u32),
+    /// address (index) is learned from a peer: payload with that source arrived from it
+    Learn(u8, u8),
 }
 
 #[derive(Clone, Debug, Serialize, Deserialize)]
@@ -111,11 +113,13 @@ pub struct RouteRef {
     claims: BTreeMap<(u8, u8), RefClaim>,
     /// address index -> last decision that was justified as a fresh one
     decisions: BTreeMap<u8, Decision>,
+    /// address index -> (peer it was learned from, when)
+    learned: BTreeMap<u8, (u8, i64)>,
 }
 
 impl RouteRef {
     pub fn new(switch_timeout: u32, claim_timeout: u32, ranges: Vec<Range>) -> Self {
-        RouteRef { switch_timeout: switch_timeout as i64, claim_timeout: claim_timeout as i64, ranges, claims: BTreeMap::new(), decisions: BTreeMap::new() }
+        RouteRef { switch_timeout: switch_timeout as i64, claim_timeout: claim_timeout as i64, ranges, claims: BTreeMap::new(), decisions: BTreeMap::new(), learned: BTreeMap::new() }
     }
 
     pub fn announce(&mut self, now: i64, peer: u8, set: &[u8]) {
@@ -138,6 +142,11 @@ impl RouteRef {
     pub fn disconnect(&mut self, peer: u8) {
         self.claims.retain(|(p, _), _| *p != peer);
         self.decisions.retain(|_, d| d.peer != peer);
+        self.learned.retain(|_, (p, _)| *p != peer);
+    }
+
+    pub fn learn(&mut self, now: i64, addr_idx: u8, peer: u8) {
+        self.learned.insert(addr_idx, (peer, now));
     }
 
     /// claims of a peer that may be live now: set of range indices
@@ -173,6 +182,12 @@ impl RouteRef {
                 if fresh {
                     self.decisions.insert(addr_idx, Decision { peer: p, made_at: now });
                     return Ok("fresh");
+                }
+                // a learned address is a cached decision too: valid for the switch timeout while its peer is connected
+                if let Some((lp, lt)) = self.learned.get(&addr_idx) {
+                    if *lp == p && now <= lt + self.switch_timeout {
+                        return Ok("learned");
+                    }
                 }
                 // reuse of a cached decision: made no longer than the switch timeout ago, from a claim of p that has
                 // been live ever since, p never disconnected since
@@ -237,6 +252,12 @@ pub fn run_table_case(ctx: &Ctx, c: &TableCase) -> Vec<Viol> {
                     had_change = true;
                 }
             }
+            Op::Learn(p, a) => {
+                let ai = *a % addrs.len() as u8;
+                table.cache(addrs[ai as usize], peer_addr(*p));
+                model.learn(now, ai, *p);
+                had_change = true;
+            }
             Op::Lookup(a) => {
                 let ai = *a % addrs.len() as u8;
                 let addr = addrs[ai as usize];
@@ -287,6 +308,7 @@ fn op_strategy() -> impl Strategy<Value = Op> {
         4 => (0u8..3, proptest::collection::vec(0u8..9, 0..4)).prop_map(|(p, s)| Op::Announce(p, s)),
         1 => (0u8..3).prop_map(Op::Disconnect),
         6 => (0u8..11).prop_map(Op::Lookup),
+        1 => (0u8..3, 0u8..11).prop_map(|(p, a)| Op::Learn(p, a)),
         3 => prop_oneof![Just(0u32), Just(1), Just(2), Just(4), Just(5), Just(6), Just(11), Just(12), Just(13)].prop_map(Op::Tick),
     ]
 }
@@ -375,6 +397,7 @@ pub fn run(ctx: &Ctx) {
         Op::Tick(1),
         Op::Tick(5),
         Op::Tick(12),
+        Op::Learn(1, 2), // 10.1.3.1 learned from peer 1 (which may hold no claim at all)
     ];
     let depth: u32 = ctx.tier.pick(6, 7);
     let total = (alphabet.len() as u64).pow(depth);
@@ -388,7 +411,7 @@ pub fn run(ctx: &Ctx) {
         let v = run_table_case(ctx, &c);
         ctx.report(v);
     });
-    ctx.subspace(&format!("table histories: all sequences of length {} over an 11-op alphabet", depth), total, true);
+    ctx.subspace(&format!("table histories: all sequences of length {} over a 12-op alphabet (incl. an address learned from a peer)", depth), total, true);
 
     // ---- (b) proptest histories
     let nh: u32 = ctx.tier.pick(40_000, 400_000);
